@@ -40,7 +40,24 @@ def canon(t, memo=None):
 
 
 def single(n, k, d=NONE):
-    return ("single", n, k, d)
+    """node.get_single(k[, d]).  In this module's comparisons 'the child or None' and 'the first child' are one form
+    (``norm``): after a presence test the interpreter knows the child is there and says ``first``."""
+    return ("first", n, k) if d == NONE else ("single", n, k, d)
+
+
+def norm(t, memo=None):
+    """('single', n, k, None) -> ('first', n, k), everywhere in t."""
+    if memo is None:
+        memo = {}
+    if not isinstance(t, tuple) or not t:
+        return t
+    if t in memo:
+        return memo[t]
+    new = tuple(norm(x, memo) if isinstance(x, tuple) else x for x in t)
+    if new[0] == "single" and len(new) == 4 and new[3] == NONE:
+        new = ("first", new[1], new[2])
+    memo[t] = new
+    return new
 
 
 def items(n, k):
@@ -66,6 +83,7 @@ class BuilderNF:
         self.selft = ("param", p[0])
         self.node = ("param", p[1])
         self.memo: dict = {}
+        self.nmemo: dict = {}
         self.branches: dict[str, Branch] = {}
         self.tree: list = []
         g = grammar()
@@ -102,7 +120,7 @@ class BuilderNF:
             self.tree.extend(tree)
 
     def c(self, t):
-        return canon(t, self.memo)
+        return norm(canon(t, self.memo), self.nmemo)
 
     # -- deep term collection ---------------------------------------------------------------
     def deep_terms(self, t, seen=None, values_only=False):
@@ -231,7 +249,7 @@ def _owner_rule(b: BuilderNF, owner, prule):
     """Grammar rule whose AstNode the canonical term ``owner`` denotes inside branch ``prule``."""
     if owner == b.node:
         return prule
-    if owner[0] == "single" and owner[3] == NONE:
+    if (owner[0] == "single" and owner[3] == NONE) or owner[0] == "first":
         parent = _owner_rule(b, owner[1], prule)
         if parent is not None:
             return owner[2]
@@ -487,7 +505,7 @@ def rule_order(rep: Report, rid="C03.order") -> None:
                     if dd and len(dd) == 1:
                         k = next(iter(dd))
                         v = b.c(dd[k][0])
-                        if v == cc and v[0] == "single" and v[1] == b.node:
+                        if v == cc and v[0] == "first" and v[1] == b.node:
                             found.append((k, v[2], "?"))
                             continue
                 found.append(("irregular", fmt_seg(s, I) if s[0] != "if" else "if " + fmt(s[1], I), ""))
